@@ -431,3 +431,13 @@ fn ascii_lnl_shape(toks: &[&[u8]]) {
 
 window_harness!(tok_window_lines_18_at14, 18, 14, 21, tokenize_lines, check_lines);
 window_harness!(tok_window_lines_34_at30, 34, 30, 37, tokenize_lines, check_lines);
+
+// ---------------------------------------------------------------- long byte inputs: not reached
+//
+// A harness running the [u8] tokenizers on 72 bytes of concrete filler with a window of 3
+// symbolic bytes (arbitrary, or masked to ASCII) inside one 8-byte word / across the 64-byte
+// mark - meant for word-at-a-time scanning that only switches on for inputs of 64+ bytes
+// (seeded change C06d) - did not get through CBMC's symbolic execution in 1800 s (4.4 GB):
+// <[u8]>::char_indices decodes through bstr's UTF-8 automaton, and 72 iterations of it with a
+// symbolic byte in flight are beyond what this engine unrolls in the budget.  The harness was
+// removed; inputs of 64+ bytes are outside the bounds of C06 (DESIGN.md section 12).
